@@ -60,6 +60,12 @@ Definition py_isdigit_char (c : N) : bool :=
 Definition py_isdigit (s : str) : bool :=
   match s with [] => false | _ => forallb py_isdigit_char s end.
 
+(** str.isdecimal: non-empty and every character is a decimal digit (category Nd).  This
+    is the filter of the two //@id scans since the repair of the isdigit defect. *)
+Definition is_dec (c : N) : bool := match py_decimal c with Some _ => true | None => false end.
+Definition py_isdecimal (s : str) : bool :=
+  match s with [] => false | _ => forallb is_dec s end.
+
 (** ** int of a str, base 10 (PyLong_FromUnicodeObject + PyLong_FromString) *)
 Inductive tok := TSpace | TDigit (d : N) | TPlus | TMinus | TUnder | TBad.
 
@@ -142,8 +148,9 @@ Fixpoint dedup (l : list str) : list str :=
 (** * Shape ids *)
 
 (** [ids]: every value found by the xpath //@id in the slide document, document order.
-    used_ids = [int(s) for s in ids if s.isdigit()] ; int may raise ValueError. *)
-Definition used_ids (ids : list str) : res (list Z) := mapM py_int (filter py_isdigit ids).
+    used_ids = [int(s) for s in ids if s.isdecimal()] ; int may raise ValueError (only
+    beyond 4300 digits, see the proofs). *)
+Definition used_ids (ids : list str) : res (list Z) := mapM py_int (filter py_isdecimal ids).
 
 Definition max_of_used (u : list Z) : Z :=
   match u with [] => 0%Z | x :: r => max_from x r end.
@@ -179,6 +186,20 @@ Definition next_cTn_id (ids : list str) : res Z :=
     | [] => Err ValueErr
     | x :: r => Ok (max_from x r + 1)%Z
     end).
+
+(** _BaseShapes._next_ph_name: basename, a space, and a number starting at id-1 that is
+    incremented while the name is taken (names = //p:cNvPr/@name).  The loop is a while
+    True in the code; here it runs on fuel and the proofs show the fuel suffices. *)
+Definition ph_name (base : str) (n : N) : str := base ++ [32%N] ++ dec_of_N n.
+Fixpoint ph_name_search (fuel : nat) (base : str) (n : N) (names : list str) : option str :=
+  match fuel with
+  | O => None
+  | S f => if mem_str (ph_name base n) names
+           then ph_name_search f base (n + 1)%N names
+           else Some (ph_name base n)
+  end.
+Definition next_ph_name (base : str) (numpart : N) (names : list str) : option str :=
+  ph_name_search (S (length names)) base numpart names.
 
 (** ** The slide-like part as a state machine.
     [shape_ids]: the p:cNvPr/@id values (shape identities); [other_ids]: every other
@@ -266,7 +287,7 @@ Fixpoint run_ops (st : sstate) (ops : list sop) : sstate * list (res Z) :=
 Fixpoint num_ids (l : list str) : list Z :=
   match l with
   | [] => []
-  | s :: r => if py_isdigit s
+  | s :: r => if py_isdecimal s
               then match py_int s with Ok v => v :: num_ids r | Err _ => num_ids r end
               else num_ids r
   end.
